@@ -124,38 +124,33 @@ def combinedRefseqGaps (seqGaps unionGaps : Gaps) : Gaps :=
   let d := gapDifference seqGaps unionGaps
   updateDiff s2a d.1 (subsetToAlign seqGaps s2a d.2 [])
 
-/-- (repaired variant only) the gaps of the other sequence as (alignment start, alignment end, seq position) -/
-def gapSpans : Gaps → Int → List (Int × Int × Int)
-  | [], _ => []
-  | (p, l) :: r, tot => (p + tot, p + tot + l, p) :: gapSpans r (tot + l)
-
-/-- `spans[bisect_left(starts, c) - 1]` when that index is `>= 0`: the last span starting before `c` -/
-def spanBefore : List (Int × Int × Int) → Int → Option (Int × Int × Int) → Option (Int × Int × Int)
-  | [], _, cur => cur
-  | sp :: r, c, cur => if sp.1 < c then spanBefore r c (some sp) else cur
+/-- (repaired variant only) `seq_position(aln_pos)`: number of residues of the other sequence that precede
+alignment column `c`; a column strictly inside a gap belongs to that gap.  `s` = `sorted(other_seq_gaps.items())`,
+`tot` = gap characters passed so far. -/
+def seqPosAt : Gaps → Int → Int → Int
+  | [], tot, c => c - tot
+  | (q, l) :: r, tot, c =>
+    if c ≤ q + tot then c - tot
+    else if c < q + tot + l then q
+    else seqPosAt r (tot + l) c
 
 /-- alignment column → position in the other sequence.
 `fixed = false`: the code as pinned (`gap_pos - aln2seq[gap_pos]`);
-`fixed = true`: the proposed repair `fixes/C18-p2m-gap-injection.patch` (a column strictly inside a gap of the
-other sequence belongs to that gap). -/
-def injectPos (fixed : Bool) (a2s : GapOffset) (spans : List (Int × Int × Int)) (gp : Int) : Int :=
-  if fixed then
-    match spanBefore spans gp none with
-    | some sp => if gp < sp.2.1 then sp.2.2 else gp - a2s.get gp
-    | none => gp - a2s.get gp
-  else gp - a2s.get gp
+`fixed = true`: the proposed repair `fixes/C18-p2m-gap-injection.patch` (`seq_position(gap_pos)`). -/
+def injectPos (fixed : Bool) (a2s : GapOffset) (sortedOther : Gaps) (gp : Int) : Int :=
+  if fixed then seqPosAt sortedOther 0 gp else gp - a2s.get gp
 
-def injectLoop (fixed : Bool) (a2s : GapOffset) (spans : List (Int × Int × Int)) (seqlen : Int) :
+def injectLoop (fixed : Bool) (a2s : GapOffset) (sortedOther : Gaps) (seqlen : Int) :
     Gaps → Gaps → Except String Gaps
   | [], all => .ok all
   | (gp, gl) :: r, all =>
-    let gp' := min seqlen (injectPos fixed a2s spans gp)
+    let gp' := min seqlen (injectPos fixed a2s sortedOther gp)
     if gp' < 0 then .error "ValueError"
-    else injectLoop fixed a2s spans seqlen r (dset all gp' (match dget all gp' with | some x => gl + x | none => gl))
+    else injectLoop fixed a2s sortedOther seqlen r (dset all gp' (match dget all gp' with | some x => gl + x | none => gl))
 
 /-- `_gaps_for_injection` -/
 def gapsForInjection (fixed : Bool) (other refGaps : Gaps) (seqlen : Int) : Except String Gaps :=
-  injectLoop fixed (GapOffset.mk' other true) (gapSpans (sortGaps other) 0) seqlen (sortGaps refGaps) other
+  injectLoop fixed (GapOffset.mk' other true) (sortGaps other) seqlen (sortGaps refGaps) other
 
 def injectAll (fixed : Bool) (unionGaps : Gaps) : List (Gaps × Gaps × Int) → Except String (List Gaps)
   | [] => .ok []
